@@ -168,7 +168,10 @@ example : clusters id [(⟨5, 9, 0⟩ : Aln), ⟨5, 5, 1⟩] = [((5, 8), [⟨5, 
     records (multimapper resolution, counters, printers — compared up to record order) is the same for the two
     representations.  Not proved here in this form: that the real downstream is a function of the *multiset* of
     records is the content of C08 (`the resolver retains the same set for every record order`) and C02
-    (`accumulation commutes`); it enters `outputs_invariant_partial` as the hypothesis `hpost`. -/
+    (`accumulation commutes`); it enters `outputs_invariant_partial` as the hypothesis `hpost`.
+    Props/C12EndToEnd.lean composes the C08 and C02 models and proves the clause for the modelled downstream
+    (`bam_clause_end_to_end_partial`, `end_to_end_partition_invariant`) under a no-conflicting-duplicates condition,
+    without which it is false (`bam_clause_witness`). -/
 def BamClause {R O : Type} (post : List R → O) (split : SplitFn) (assign : Assign R) : Prop :=
   ∀ files1 files2 : List (List Aln),
     (∀ f ∈ files1, SortedStart f) → (∀ f ∈ files2, SortedStart f) → (∀ a ∈ files1.flatten, a.start < a.stop) →
